@@ -8,6 +8,12 @@ import os
 from . import core
 
 
+def plain(obj):
+    """JSON-safe copy of a findings dictionary (what ctx.violation would store anyway): picklable."""
+    import json
+    return json.loads(core.canon(obj))
+
+
 def case_hash(scenario):
     return hashlib.md5(core.canon(scenario).encode()).hexdigest()
 
